@@ -23,6 +23,16 @@ structure Store (P : Type) where
   /-- ghost: number of priority comparisons performed so far -/
   ticks : Nat := 0
 
+/-- the number of elements from which `Vec::reserve` / `Vec::with_capacity` / `IndexMap::reserve` / `with_capacity`
+deterministically panic with "capacity overflow": `2^61` elements of at least 8 bytes each exceed `isize::MAX` bytes -/
+def capLimit : Nat := 2 ^ 61
+
+/-- `reserve(n)` / `with_capacity(n)` of `Vec` / `IndexMap` with a requested number of elements `n`: the deterministic
+**capacity-overflow panic** (`Fault.capacity`, the one documented panic C04 allows) when `n` cannot be represented
+(`n ≥ capLimit`), no effect on the modelled state otherwise (capacity is not part of it).  Allocation *failure* below the
+limit (the allocator refusing a representable request) is outside the model. -/
+def reserveC (n : Nat) : R Unit := if n ≥ capLimit then .error .capacity else pure ()
+
 namespace Store
 variable {P : Type}
 
